@@ -1,1 +1,244 @@
-/-! # C11 — property theorems (not built yet) -/
+import PysphVerif.Lemmas.DumpLoadNpz
+/-!
+# C11 — saved output loads back to the same particles and solver data
+
+Property theorems only (helper lemmas live in `Lemmas/DumpLoad.lean`).  They
+are about `Model/DumpLoad.lean`, which transcribes the two writers, the three
+readers and the `ParticleArray` construction they drive, and is tied to the
+code by executing `load(dump(...))` on real files.
+
+The theorems hold for every well-formed source array (`WF`: coherent, aligned,
+`tag/pid/gid` as `clear()` makes them — any further property names, C types,
+strides, defaults, any constants, any output list naming properties, any number
+of particles including none), every option combination (`detailed`,
+`only_real`, `compress`) and every value type.  The file is an abstract nested
+dictionary: the encodings of numpy/pickle/h5py are not modelled (partial).
+-/
+set_option linter.unusedSectionVars false
+namespace PysphVerif.C11
+open PysphVerif.DumpLoad
+
+variable {V S : Type} [PVal V] [DecidableEq V]
+
+/-! ## the core of every reader -/
+
+/-- Serving the `add_property` requests derived from a dump **in any order**
+(hdf5 iterates by name, npz in dictionary order) on a freshly cleared array
+succeeds, and every source property comes back with its C type, stride and
+default — whether or not it was written — and with exactly the stored slice
+(`num × stride` leading entries: real particles only under `only_real`) as data
+when it was written; no other property appears. -/
+theorem readers_rebuild_in_any_order (pa : PArr V) (hwf : WF pa) (o : Opts)
+    (arrs : List (String × List V))
+    (hdump : getPropertyArrays pa o.detailed o.onlyReal = some arrs)
+    (rs : List (AddReq V)) (hperm : rs.Perm (pa.props.map (reqOf arrs))) (name : String) :
+    ∃ q, addAll (emptyArr name) rs = .ok q ∧
+      (∀ p ∈ pa.props, ∃ p' ∈ q.props, p'.name = p.name ∧ p'.ctype = p.ctype ∧
+        p'.stride = p.stride ∧ p'.default = p.default ∧
+        (p.name ∈ storedNames pa o.detailed →
+          p'.data = p.data.take (numParticles pa o.onlyReal * p.stride))) ∧
+      (∀ p' ∈ q.props, ∃ p ∈ pa.props, p.name = p'.name) := by
+  obtain ⟨arrs', hg, harrs⟩ := gpa_spec pa o.detailed o.onlyReal (storedNames_sub pa hwf _)
+  rw [hdump] at hg
+  cases hg
+  obtain ⟨q, _, h1, _, _, _, _, hm, hn⟩ :=
+    rebuild pa hwf o.detailed o.onlyReal arrs harrs rs hperm (emptyArr name) (sinv_clear _)
+  exact ⟨q, h1, hm, hn⟩
+
+/-! ## hdf5 -/
+
+/-- `load(dump([pa]))` through an hdf5 file succeeds for every well-formed
+array and every option combination, and delivers a `RoundTrip`. -/
+theorem hdf5_roundtrip (pa : PArr V) (hwf : WF pa) (o : Opts) (sd : List (String × S)) :
+    ∃ f q, dump .hdf5 o [pa] sd = some f ∧
+      load f = .ok (sortByName sd, [(pa.name, q)]) ∧ RoundTrip o pa q := by
+  obtain ⟨arrs, q, hg, hl, hrt⟩ := loadH5_spec pa hwf o
+  refine ⟨File.hdf5 sd [(pa.name, h5ArrOf pa arrs)], q, ?_, ?_, hrt⟩
+  · simp [dump, dumpHdf5, allArrayData, arrayDataStep, hg, particlesInfo, infoStep, dictSet,
+      h5Entry, dictGet?, arrayInfo, h5ArrOf]
+  · simp [load, sortByName, insertByName, collectStep, hl, dictSet, Except.map, bind, Except.bind,
+      pure, Except.pure]
+
+/-- name, and per property the same C type, stride and default; the same
+property set; the same constants; the same output-array list (hdf5) -/
+theorem roundtrip_meta_hdf5 (pa : PArr V) (hwf : WF pa) (o : Opts) (sd : List (String × S)) :
+    ∃ f sd' q, dump .hdf5 o [pa] sd = some f ∧ load f = .ok (sd', [(pa.name, q)]) ∧
+      q.name = pa.name ∧ q.outArrs = pa.outArrs ∧ q.consts.Perm pa.consts ∧
+      (∀ p ∈ pa.props, ∃ p' ∈ q.props, p'.name = p.name ∧ p'.ctype = p.ctype ∧
+        p'.stride = p.stride ∧ p'.default = p.default) ∧
+      (∀ p' ∈ q.props, ∃ p ∈ pa.props, p.name = p'.name) ∧ (q.props.map (·.name)).Nodup := by
+  obtain ⟨f, q, hd, hl, hrt⟩ := hdf5_roundtrip pa hwf o sd
+  refine ⟨f, _, q, hd, hl, hrt.name, hrt.outArrs, hrt.consts, ?_, hrt.noExtra, hrt.nodup⟩
+  intro p hp
+  obtain ⟨p', hp', h1, h2, h3, h4, _⟩ := hrt.same p hp
+  exact ⟨p', hp', h1, h2, h3, h4⟩
+
+/-- every stored property has the same values for the same particles: all
+particles, or the `nReal` real ones when `only_real` is set (hdf5) -/
+theorem roundtrip_values_hdf5 (pa : PArr V) (hwf : WF pa) (o : Opts) (sd : List (String × S)) :
+    ∃ f sd' q, dump .hdf5 o [pa] sd = some f ∧ load f = .ok (sd', [(pa.name, q)]) ∧
+      ∀ p ∈ pa.props, p.name ∈ storedNames pa o.detailed →
+        ∃ p' ∈ q.props, p'.name = p.name ∧
+          p'.data = p.data.take ((if o.onlyReal then pa.nReal else numParticles pa false) * p.stride) := by
+  obtain ⟨f, q, hd, hl, hrt⟩ := hdf5_roundtrip pa hwf o sd
+  refine ⟨f, _, q, hd, hl, ?_⟩
+  intro p hp hst
+  obtain ⟨p', hp', h1, _, _, _, h5⟩ := hrt.same p hp
+  refine ⟨p', hp', h1, ?_⟩
+  rw [h5 hst]
+  rfl
+
+/-- an array without (stored) particles loads back as an array without particles (hdf5) -/
+theorem empty_array_roundtrip_hdf5 (pa : PArr V) (hwf : WF pa) (o : Opts) (sd : List (String × S))
+    (hempty : numParticles pa o.onlyReal = 0) :
+    ∃ f sd' q, dump .hdf5 o [pa] sd = some f ∧ load f = .ok (sd', [(pa.name, q)]) ∧
+      ∀ p' ∈ q.props, p'.data = [] := by
+  obtain ⟨f, q, hd, hl, hrt⟩ := hdf5_roundtrip pa hwf o sd
+  refine ⟨f, _, q, hd, hl, ?_⟩
+  intro p' hp'
+  obtain ⟨n, hn, hc⟩ := hrt.coh
+  have hn0 : n = 0 := by
+    rcases hn with e | e
+    · exact e
+    · rw [e, hempty]
+  have := hc p' hp'
+  rw [hn0, Nat.zero_mul] at this
+  exact List.length_eq_zero_iff.1 this
+
+/-! ## npz (version 2) -/
+
+/-- `load(dump([pa]))` through an npz file succeeds for every well-formed array
+and every option combination, delivers a `RoundTrip` with the constants in
+their original order and solver data untouched, and `num_real_particles` of
+the loaded array is the number of `Local` tags it holds (the reader aligns). -/
+theorem npz_roundtrip (pa : PArr V) (hwf : WF pa) (o : Opts) (sd : List (String × S)) :
+    ∃ f q, dump .npz o [pa] sd = some f ∧
+      load f = .ok (sd, [(pa.name, q)]) ∧ RoundTrip o pa q ∧ q.consts = pa.consts ∧
+      (∀ t ∈ q.props, t.name = "tag" → q.nReal = countLocal t.data) := by
+  obtain ⟨arrs, q, hg, hl, hrt, hc, hnr⟩ := loadNpz_spec pa hwf o
+  refine ⟨File.npz2 sd [(pa.name, npzArrOf pa arrs)], q, ?_, ?_, hrt, hc, hnr⟩
+  · simp [dump, dumpNpz, allArrayData, arrayDataStep, hg, particlesInfo, infoStep, dictSet,
+      npzEntry, dictGet?, npzArrOf]
+  · simp [load, collectStep, hl, dictSet, Except.map, bind, Except.bind, pure, Except.pure]
+
+/-- name, and per property the same C type, stride and default; the same
+property set; the same constants; the same output-array list (npz) -/
+theorem roundtrip_meta_npz (pa : PArr V) (hwf : WF pa) (o : Opts) (sd : List (String × S)) :
+    ∃ f sd' q, dump .npz o [pa] sd = some f ∧ load f = .ok (sd', [(pa.name, q)]) ∧
+      q.name = pa.name ∧ q.outArrs = pa.outArrs ∧ q.consts = pa.consts ∧
+      (∀ p ∈ pa.props, ∃ p' ∈ q.props, p'.name = p.name ∧ p'.ctype = p.ctype ∧
+        p'.stride = p.stride ∧ p'.default = p.default) ∧
+      (∀ p' ∈ q.props, ∃ p ∈ pa.props, p.name = p'.name) ∧ (q.props.map (·.name)).Nodup := by
+  obtain ⟨f, q, hd, hl, hrt, hc, _⟩ := npz_roundtrip pa hwf o sd
+  refine ⟨f, _, q, hd, hl, hrt.name, hrt.outArrs, hc, ?_, hrt.noExtra, hrt.nodup⟩
+  intro p hp
+  obtain ⟨p', hp', h1, h2, h3, h4, _⟩ := hrt.same p hp
+  exact ⟨p', hp', h1, h2, h3, h4⟩
+
+/-- every stored property has the same values for the same particles: all
+particles, or the `nReal` real ones when `only_real` is set (npz) -/
+theorem roundtrip_values_npz (pa : PArr V) (hwf : WF pa) (o : Opts) (sd : List (String × S)) :
+    ∃ f sd' q, dump .npz o [pa] sd = some f ∧ load f = .ok (sd', [(pa.name, q)]) ∧
+      ∀ p ∈ pa.props, p.name ∈ storedNames pa o.detailed →
+        ∃ p' ∈ q.props, p'.name = p.name ∧
+          p'.data = p.data.take ((if o.onlyReal then pa.nReal else numParticles pa false) * p.stride) := by
+  obtain ⟨f, q, hd, hl, hrt, _, _⟩ := npz_roundtrip pa hwf o sd
+  refine ⟨f, _, q, hd, hl, ?_⟩
+  intro p hp hst
+  obtain ⟨p', hp', h1, _, _, _, h5⟩ := hrt.same p hp
+  refine ⟨p', hp', h1, ?_⟩
+  rw [h5 hst]
+  rfl
+
+/-- an array without (stored) particles loads back as an array without particles (npz) -/
+theorem empty_array_roundtrip_npz (pa : PArr V) (hwf : WF pa) (o : Opts) (sd : List (String × S))
+    (hempty : numParticles pa o.onlyReal = 0) :
+    ∃ f sd' q, dump .npz o [pa] sd = some f ∧ load f = .ok (sd', [(pa.name, q)]) ∧
+      ∀ p' ∈ q.props, p'.data = [] := by
+  obtain ⟨f, q, hd, hl, hrt, _, _⟩ := npz_roundtrip pa hwf o sd
+  refine ⟨f, _, q, hd, hl, ?_⟩
+  intro p' hp'
+  obtain ⟨n, hn, hc⟩ := hrt.coh
+  have hn0 : n = 0 := by
+    rcases hn with e | e
+    · exact e
+    · rw [e, hempty]
+  have := hc p' hp'
+  rw [hn0, Nat.zero_mul] at this
+  exact List.length_eq_zero_iff.1 this
+
+/-- compression does not change what is written (the abstract file), hence not what loads -/
+theorem compress_irrelevant (fmt : Fmt) (o : Opts) (arrays : List (PArr V)) (sd : List (String × S)) :
+    dump fmt { o with compress := true } arrays sd = dump fmt { o with compress := false } arrays sd := by
+  cases fmt <;> rfl
+
+/-! ## solver data -/
+
+/-- whenever a written file loads, the solver data that comes back is the
+solver data that went in: identical for npz, the same dictionary in name
+order for hdf5 -/
+theorem solver_data_roundtrip (fmt : Fmt) (o : Opts) (arrays : List (PArr V))
+    (sd : List (String × S)) (f : File V S) (hd : dump fmt o arrays sd = some f)
+    (sd' : List (String × S)) (as : List (String × PArr V)) (hl : load f = .ok (sd', as)) :
+    sd'.Perm sd ∧ (fmt = .npz → sd' = sd) := by
+  cases fmt with
+  | npz =>
+    simp only [dump, dumpNpz, Option.map_eq_some_iff] at hd
+    obtain ⟨aad, _, e⟩ := hd
+    subst e
+    simp only [load, Except.map] at hl
+    split at hl
+    · cases hl
+    · simp only [Except.ok.injEq, Prod.mk.injEq] at hl
+      exact ⟨by rw [← hl.1], fun _ => hl.1.symm⟩
+  | hdf5 =>
+    simp only [dump, dumpHdf5, Option.bind_eq_some_iff, Option.map_eq_some_iff] at hd
+    obtain ⟨aad, _, es, _, e⟩ := hd
+    subst e
+    simp only [load, Except.map] at hl
+    split at hl
+    · cases hl
+    · simp only [Except.ok.injEq, Prod.mk.injEq] at hl
+      exact ⟨by rw [← hl.1]; exact sortByName_perm sd, fun h => by cases h⟩
+
+/-! ## non-vacuity: a concrete well-formed array and what the model computes for it -/
+
+instance : PVal Nat := ⟨0, 4294967295⟩
+
+instance (n : String) : Decidable (isBase n) := by unfold isBase; infer_instance
+
+/-- the value of a successful `load (dump …)` -/
+def okOf {α : Type} : Option (Except String α) → Option α
+  | some (.ok a) => some a
+  | _ => none
+
+/-- three particles (two real, one ghost), a strided property, an integer
+property with default 7 that is NOT in the output list -/
+def exArr : PArr Nat :=
+  { name := "f",
+    props := [⟨"tag", .int, 1, 0, [0, 0, 2]⟩, ⟨"pid", .int, 1, 0, [0, 0, 0]⟩,
+              ⟨"gid", .uint, 1, 4294967295, [1, 2, 3]⟩, ⟨"x", .double, 1, 0, [5, 6, 7]⟩,
+              ⟨"A", .double, 2, 7, [1, 2, 3, 4, 5, 6]⟩, ⟨"k", .int, 1, 7, [1, 1, 1]⟩],
+    consts := [⟨"c", .double, [1, 2]⟩], outArrs := ["x", "A"], nReal := 2 }
+
+example : WF exArr := by
+  refine { nodup := by decide, hasBase := ?_, baseMeta := by decide, stridePos := by decide,
+           coh := by decide, nreal := by decide, aligned := by decide, outSub := by decide,
+           constsNodup := by decide, constsDisj := by decide, constsTy := by decide }
+  intro n hn
+  rcases hn with e | e | e <;> subst e <;> decide
+
+/-- brief hdf5 output of the real particles: `k` is not written, yet comes back
+with type int, default 7 and (two particles) the data `[7, 7]`; `A` keeps its
+stride and the first `2 × 2` values -/
+example : okOf ((dump .hdf5 ⟨false, true, false⟩ [exArr] [("t", 1)]).map load) =
+    some (([("t", 1)], [("f",
+      { name := "f",
+        props := [⟨"tag", .int, 1, 0, [0, 0]⟩, ⟨"pid", .int, 1, 0, [0, 0]⟩,
+                  ⟨"gid", .uint, 1, 4294967295, [4294967295, 4294967295]⟩,
+                  ⟨"A", .double, 2, 7, [1, 2, 3, 4]⟩, ⟨"k", .int, 1, 7, [7, 7]⟩,
+                  ⟨"x", .double, 1, 0, [5, 6]⟩],
+        consts := [⟨"c", .double, [1, 2]⟩], outArrs := ["x", "A"], nReal := 2 })])) := by
+  decide +kernel
+
+end PysphVerif.C11
